@@ -93,3 +93,29 @@ Proof.
     destruct ((last_index_from name 47 0 (-1) + 1 <? 0) || (Z.of_nat (length name) <? last_index_from name 47 0 (-1) + 1)) eqn:E2; [lia|].
     rewrite Ha. f_equal. f_equal. lia.
 Qed.
+
+(* ---- the two width setters ---- *)
+Lemma gen_set_level_output_width cur w :
+  Layout.set_level_output_width cur w = (if (0 <=? w) && (w <=? 5) then w else cur).
+Proof.
+  first [ reflexivity
+        | unfold Layout.set_level_output_width; cbv zeta;
+          repeat match goal with |- context [if ?c then _ else _] => destruct c eqn:? end; solve [ reflexivity | lia ] ].
+Qed.
+
+Lemma gen_set_message_minimal_width cur w :
+  Layout.set_message_minimal_width cur w = (if 16 <=? w then w else cur).
+Proof.
+  first [ reflexivity
+        | unfold Layout.set_message_minimal_width; cbv zeta;
+          repeat match goal with |- context [if ?c then _ else _] => destruct c eqn:? end; solve [ reflexivity | lia ] ].
+Qed.
+
+(* any sequence of SetLevelOutputWidth calls leaves a width in 0..5 when it started there: ShortTag is
+   never asked for a width of 6 or more *)
+Lemma widths_stay_in_range ws : forall cur, 0 <= cur <= 5 ->
+  0 <= fold_left Layout.set_level_output_width ws cur <= 5.
+Proof.
+  induction ws as [|w ws IH]; intros cur H; cbn [fold_left]; [exact H|].
+  apply IH. rewrite gen_set_level_output_width. destruct ((0 <=? w) && (w <=? 5)) eqn:E; lia.
+Qed.
